@@ -126,6 +126,9 @@ def _create_outside_package_class(
 ) -> set[str]:
     path_parts = class_path.split(".")
     class_name = path_parts.pop(-1)
+    if not path_parts:
+        # A bare name has no module a placeholder stub could be written for
+        return created_module_paths
     module_name = path_parts[-1]
     module_path = "/".join(path_parts)
 
